@@ -21,6 +21,8 @@ pub enum Op {
     Publish,
     Heartbeat,
     AdvanceMs(u32),
+    /// set_application_score(peer, level): 0 => -5000 (below publish_threshold -2000), 1 => -100, 2 => 0, 3 => +10
+    Score(u16, u8),
 }
 
 #[derive(Clone, Debug, Serialize, Deserialize)]
@@ -31,6 +33,9 @@ pub struct Case {
     pub warm: u8,
     pub floodsub_mask: u16,
     pub ops: Vec<Op>,
+    /// peer scoring enabled (application score only; publish_threshold -2000)
+    #[serde(default)]
+    pub scoring: bool,
 }
 
 fn strategy() -> BoxedStrategy<Case> {
@@ -41,9 +46,11 @@ fn strategy() -> BoxedStrategy<Case> {
         8 => Just(Op::Publish),
         2 => Just(Op::Heartbeat),
         2 => (0u32..20_000).prop_map(Op::AdvanceMs),
+        // score changes (ignored when scoring is off): dips below the publish threshold and back
+        3 => (any::<u16>(), prop_oneof![3 => Just(0u8), 1 => Just(1u8), 3 => Just(2u8), 1 => Just(3u8)]).prop_map(|(p, l)| Op::Score(p, l)),
     ];
-    (2usize..=4, 2u8..=12, any::<u8>(), prop_oneof![3 => Just(0u16), 1 => any::<u16>()], prop::collection::vec(op, 2..40))
-        .prop_map(|(mesh_n, npeers, warm, floodsub_mask, ops)| Case { mesh_n, npeers, warm: pick((warm as u16) << 8, npeers as usize + 1).min(3) as u8, floodsub_mask, ops })
+    (2usize..=4, 2u8..=12, any::<u8>(), prop_oneof![3 => Just(0u16), 1 => any::<u16>()], prop::collection::vec(op, 2..40), any::<bool>())
+        .prop_map(|(mesh_n, npeers, warm, floodsub_mask, ops, scoring)| Case { mesh_n, npeers, warm: pick((warm as u16) << 8, npeers as usize + 1).min(3) as u8, floodsub_mask, ops, scoring })
         .boxed()
 }
 
@@ -57,7 +64,7 @@ fn check(case: &Case) -> Outcome {
         n: case.mesh_n,
         n_high: case.mesh_n + 2,
         flood_publish: false,
-        scoring: false,
+        scoring: case.scoring,
         fanout_ttl_s: 60,
         ..NodeCfg::default_mesh()
     };
@@ -73,6 +80,11 @@ fn check(case: &Case) -> Outcome {
     let mut nontrivial = false;
     let mut labels: Vec<&'static str> = vec![];
     let mut publishes_ok = 0;
+    // peers that were members of fanout(T) at some point since the last heartbeat and have not
+    // unsubscribed / disconnected since ("selected earlier")
+    let mut selected: BTreeSet<usize> = BTreeSet::new();
+    let mut dipped_member_at_publish: BTreeSet<usize> = BTreeSet::new();
+    let mut restored_after_dip_publish = false;
 
     let mut ops: Vec<Op> = (0..case.warm as usize).map(|i| Op::Add((((i as u32) << 16) / np as u32 + 1) as u16)).collect();
     ops.extend(case.ops.iter().cloned());
@@ -105,6 +117,8 @@ fn check(case: &Case) -> Outcome {
                         node.deliver(id, &rpc_subs(&[(T, false)])).expect("codec accepts");
                     }
                     subscribed.remove(&i);
+                    selected.remove(&i);
+                    dipped_member_at_publish.remove(&i);
                     // no longer "selected earlier and still eligible", even if it subscribes again later
                     if let Some(prev) = last_recipients.as_mut() {
                         prev.remove(&i);
@@ -127,10 +141,23 @@ fn check(case: &Case) -> Outcome {
                 node.heartbeat();
             }
             Op::AdvanceMs(ms) => verif_clock::advance(Duration::from_millis(*ms as u64)),
+            Op::Score(p, level) => {
+                let i = pick(*p, np);
+                let v = match level {
+                    0 => -5000.0,
+                    1 => -100.0,
+                    2 => 0.0,
+                    _ => 10.0,
+                };
+                let _ = node.gs.set_application_score(&pool[i], v);
+            }
         }
         node.drain();
         node.app_events.clear();
-        let eligible: BTreeSet<PeerId> = subscribed.iter().map(|i| pool[*i]).collect();
+        // eligible = connected, subscribed and (with scoring) not below the publish threshold right now
+        let below_set: BTreeSet<usize> = (0..np).filter(|i| case.scoring && node.gs.peer_score(&pool[*i]).is_some_and(|s| s < -2000.0)).collect();
+        let below = |i: usize| below_set.contains(&i);
+        let eligible: BTreeSet<PeerId> = subscribed.iter().filter(|i| !below(**i)).map(|i| pool[*i]).collect();
         let fanout_after: Option<BTreeSet<PeerId>> = node.gs.verif_fanout(&th).map(|v| v.into_iter().collect());
         // who was sent the message in this step
         let mut recipients: BTreeSet<usize> = BTreeSet::new();
@@ -149,7 +176,36 @@ fn check(case: &Case) -> Outcome {
 
         if is_heartbeat {
             last_recipients = None;
+            selected.clear();
+            dipped_member_at_publish.clear();
             continue;
+        }
+        // "selected earlier ... still eligible ... stay": a peer selected since the last heartbeat that is
+        // eligible now is a member now, also when it was below the publish threshold at a publish in between
+        for i in &selected {
+            if eligible.contains(&pool[*i]) && !fanout_after.as_ref().is_some_and(|f| f.contains(&pool[*i])) {
+                return Outcome::fail(
+                    "C35:fanout-peer-selected-earlier-and-eligible-again-is-missing",
+                    detail("a peer that was in the fanout set since the last heartbeat, never unsubscribed or disconnected, and is eligible now (score back above the publish threshold) is not in the fanout set"),
+                );
+            }
+            if dipped_member_at_publish.contains(i) && eligible.contains(&pool[*i]) {
+                restored_after_dip_publish = true;
+            }
+        }
+        if let Some(f) = &fanout_after {
+            for (i, p) in pool.iter().enumerate() {
+                if f.contains(p) {
+                    selected.insert(i);
+                }
+            }
+        }
+        if published {
+            for i in &selected {
+                if subscribed.contains(i) && below(*i) {
+                    dipped_member_at_publish.insert(*i);
+                }
+            }
         }
         // between heartbeats: nobody still eligible leaves the fanout set, whatever the step was
         if let Some(before) = &fanout_before {
@@ -163,16 +219,21 @@ fn check(case: &Case) -> Outcome {
         if published {
             let after = fanout_after.clone().unwrap_or_default();
             // members of the fanout set are eligible non-floodsub peers
+            let connected_subscribers: BTreeSet<PeerId> = subscribed.iter().map(|i| pool[*i]).collect();
+            let before_set = fanout_before.clone().unwrap_or_default();
             for p in &after {
-                ensure!(eligible.contains(p), "C35:ineligible-peer-in-fanout-after-publish", detail("fanout member is not a connected subscriber"));
+                ensure!(connected_subscribers.contains(p), "C35:ineligible-peer-in-fanout-after-publish", detail("fanout member is not a connected subscriber"));
+                // a member that is below the publish threshold may linger until the heartbeat, but is never added
+                ensure!(eligible.contains(p) || before_set.contains(p), "C35:ineligible-peer-added-to-fanout", detail("a peer below the publish threshold was added to the fanout set"));
             }
             // the message went to every fanout peer
             let rec_ids: BTreeSet<PeerId> = recipients.iter().map(|i| pool[*i]).collect();
-            ensure!(after.is_subset(&rec_ids), "C35:fanout-peer-not-a-recipient", detail("a fanout peer did not get the published message"));
+            ensure!(after.intersection(&eligible).all(|p| rec_ids.contains(p)), "C35:fanout-peer-not-a-recipient", detail("an eligible fanout peer did not get the published message"));
             ensure!(recipients.iter().all(|i| subscribed.contains(i)), "C35:recipient-not-subscribed", detail("message sent to a peer that is not a connected subscriber"));
+            ensure!(recipients.iter().all(|i| !below(*i)), "C35:recipient-below-publish-threshold", detail("message sent to a peer whose score is below the publish threshold"));
             // cross-check that needs no hook: recipients of consecutive publishes (no heartbeat between)
             if let Some(prev) = &last_recipients {
-                let still: BTreeSet<usize> = prev.iter().copied().filter(|i| subscribed.contains(i)).collect();
+                let still: BTreeSet<usize> = prev.iter().copied().filter(|i| subscribed.contains(i) && !below(*i)).collect();
                 ensure!(
                     still.is_subset(&recipients),
                     "C35:earlier-recipient-skipped-by-next-publish",
@@ -205,14 +266,24 @@ fn check(case: &Case) -> Outcome {
     if publishes_ok >= 2 {
         labels.push("two_or_more_publishes");
     }
+    if case.scoring {
+        labels.push("scoring");
+    }
+    if !dipped_member_at_publish.is_empty() || restored_after_dip_publish {
+        labels.push("publish_while_a_selected_peer_is_below_publish_threshold");
+    }
+    if restored_after_dip_publish {
+        labels.push("selected_peer_eligible_again_after_publish_during_its_dip");
+    }
     Outcome::pass_l(nontrivial, labels)
 }
 
 pub fn run(ctx: &mut Ctx) {
-    ctx.assume("hooks: Behaviour::verif_fanout (read accessor), verif_heartbeat, verif::decode, Handler::verif_pop_wire; flood_publish disabled (the fanout path is unused otherwise); scoring disabled, so 'still eligible' = connected and subscribed to the topic");
+    ctx.assume("hooks: Behaviour::verif_fanout (read accessor), verif_heartbeat, verif::decode, Handler::verif_pop_wire; flood_publish disabled (the fanout path is unused otherwise); 'eligible' = connected, subscribed to the topic and, when scoring is on (50% of the cases, application score only), Behaviour::peer_score() not below the publish threshold at that moment");
+    ctx.assume("'selected earlier and still eligible' is read as: member of the fanout set at some point since the last heartbeat, no unsubscribe/disconnect since, and eligible now - a dip of the score below the publish threshold in between does not end the selection (the implementation only drops such peers in the heartbeat)");
     ctx.check::<Case>(
         "publish-histories",
-        "node never subscribed to T, mesh_n 2..4, 2..12 peers (some floodsub); <=40 ops: peer subscribes / unsubscribes / disconnects, publish(T), heartbeat, clock advance; after every non-heartbeat step fanout(T) keeps every earlier member that is still eligible; after a publish fanout is a subset of the recipients and of the eligible peers, and (hook-free) still-eligible recipients of the previous publish are recipients again; non-trivial = a publish while 0 < |fanout| < mesh_n and further eligible peers exist",
+        "node never subscribed to T, mesh_n 2..4, 2..12 peers (some floodsub); <=40 ops: peer subscribes / unsubscribes / disconnects, publish(T), heartbeat, clock advance, application-score changes (below the publish threshold and back; scoring on in 50%); after every non-heartbeat step fanout(T) keeps every earlier member that is still eligible; after a publish fanout is a subset of the recipients and of the eligible peers, and (hook-free) still-eligible recipients of the previous publish are recipients again; non-trivial = a publish while 0 < |fanout| < mesh_n and further eligible peers exist",
         ctx.n(30_000, 600_000),
         &strategy,
         &check,
